@@ -262,4 +262,6 @@ func C08(r *chk.Run) {
 		d = 4
 	}
 	histPhase(r, "C08", d)
+	r.Rule("raw-record API: files re-emitted through AddSchema/AddChannel/WriteChunkWithIndexes (chunks passed on unopened, message counters maintained by the caller through the exported Statistics): counts of schemas, channels, attachments, metadata and chunks must be exact (the time range is not compared: a chunk header cannot tell 'no message' from 'messages at time 0')")
+	passthroughPhase(r, "C08", d-1)
 }
